@@ -1,7 +1,6 @@
 package c18
 
 import (
-	"bytes"
 	"context"
 	"encoding/json"
 	"errors"
@@ -11,7 +10,6 @@ import (
 	"net/http"
 	"net/http/httptrace"
 	"net/textproto"
-	"os"
 	"strconv"
 	"strings"
 	"sync"
@@ -1208,14 +1206,7 @@ func abortVsServer(c RawCase, rec recorder) *vf.Verdict {
 			f.mu.Lock()
 			seen.invoked, seen.ctx = true, r.Context()
 			f.mu.Unlock()
-			defer func() {
-				f.mu.Lock()
-				seen.returned = true
-				f.mu.Unlock()
-				if os.Getenv("VERIF_C18_DEBUG") != "" {
-					fmt.Fprintf(os.Stderr, "DEBUG handler returned at %v wrote=%d werr=%v ctx=%v\n", f.w.Router.Now(), seen.wrote, seen.writeErr, context.Cause(r.Context()))
-				}
-			}()
+			defer func() { f.mu.Lock(); seen.returned = true; f.mu.Unlock() }()
 			switch c.DeclT {
 			case "valid":
 				w.Header().Set("Trailer", "X-T")
@@ -1299,9 +1290,6 @@ func abortVsServer(c RawCase, rec recorder) *vf.Verdict {
 			rc.conn.CloseWithError(quic.ApplicationErrorCode(c.Code), "raw peer leaves")
 		case "blackhole":
 			f.w.Router.Close()
-			if os.Getenv("VERIF_C18_DEBUG") != "" {
-				fmt.Fprintf(os.Stderr, "DEBUG blackhole at %v\n", f.w.Router.Now())
-			}
 		case "fin":
 			str.Close()
 		}
@@ -1361,9 +1349,6 @@ func abortVsServer(c RawCase, rec recorder) *vf.Verdict {
 		// RFC 9000 10.1: the idle timer also restarts when an ack-eliciting packet is sent for the first time since
 		// the last receipt, so the in-tree side may legitimately take up to twice the idle timeout to give up
 		settle = 2*rawIdle + 2*time.Second
-		if os.Getenv("VERIF_C18_DEBUG") == "2" {
-			settle = 30 * time.Second
-		}
 	}
 	var m *message
 	select {
@@ -1600,18 +1585,6 @@ func abortVsClient(c RawCase, rec recorder) *vf.Verdict {
 	}
 	if c.Action != "blackhole" {
 		if err := followUpClient(ctx, f); err != nil {
-			if os.Getenv("VERIF_C18_DEBUG") != "" {
-				tr := f.w.Router.Trace(100000)
-				for _, r := range tr[max(0, len(tr)-60):] {
-					fmt.Fprintf(os.Stderr, "DEBUG %v %s len=%d %v %s\n", r.T, r.Dir, r.Len, r.Class, r.Fate)
-				}
-				f.rs.mu.Lock()
-				fmt.Fprintf(os.Stderr, "DEBUG raw server conns: %d, now %v\n", len(f.rs.conns), f.w.Router.Now())
-				for _, sc := range f.rs.conns {
-					fmt.Fprintf(os.Stderr, "DEBUG   conn %d: %v\n", sc.idx, sc.closeErr())
-				}
-				f.rs.mu.Unlock()
-			}
 			return vf.Bad("C18/raw/client-unusable", "%s: a request through the same Transport afterwards failed: %v", desc, err)
 		}
 	}
@@ -1619,8 +1592,6 @@ func abortVsClient(c RawCase, rec recorder) *vf.Verdict {
 	rec.NonTrivial("abort/server", c.Action, c.Phase, c.At, c.ReqBody, c.RspBody, c.Client, c.CliLogger)
 	return nil
 }
-
-var _ = bytes.Equal
 
 func TestH3RawPeer(t *testing.T) {
 	curT = t
